@@ -6,12 +6,12 @@ import (
 	"grog/internal/caching"
 	"grog/internal/config"
 	"grog/internal/console"
-	"grog/internal/hashing"
 	"grog/internal/maps"
 	"grog/internal/model"
 	"grog/internal/output/handlers"
 	"grog/internal/proto/gen"
 	"grog/internal/worker"
+	"os"
 	"runtime"
 	"slices"
 	"sync"
@@ -162,12 +162,21 @@ func (r *Registry) WriteOutputs(
 }
 
 // GetNoCacheOutputHash computes the output hash for a target when target caching is disabled
-// using handler.GetHash() on local resources only
+// using handler.Hash() on local resources only.
+// The result is the same output hash that WriteOutputs computes for the same outputs.
 func (r *Registry) GetNoCacheOutputHash(ctx context.Context, target *model.Target) (*gen.TargetResult, error) {
 	outputs := target.AllOutputs()
+	if len(outputs) == 0 {
+		// Targets without outputs expose their own change behavior as an output (see OnTargetComplete)
+		return &gen.TargetResult{
+			ChangeHash:              target.ChangeHash,
+			OutputHash:              target.ChangeHash,
+			ExecutionDurationMillis: target.ExecutionTime.Milliseconds(),
+		}, nil
+	}
 
 	var tasks []pond.Task
-	var digests []string
+	var identities []string
 	var outputsMutex sync.Mutex
 
 	for _, outputRef := range outputs {
@@ -177,8 +186,16 @@ func (r *Registry) GetNoCacheOutputHash(ctx context.Context, target *model.Targe
 			if err != nil {
 				return err
 			}
+			isExecutable := false
+			if localOutputRef.IsFile() {
+				fileInfo, err := os.Stat(target.GetAbsOutputPath(localOutputRef))
+				if err != nil {
+					return err
+				}
+				isExecutable = fileInfo.Mode()&0111 != 0
+			}
 			outputsMutex.Lock()
-			digests = append(digests, outputDigest)
+			identities = append(identities, outputIdentity(localOutputRef.Type, localOutputRef.Identifier, outputDigest, isExecutable))
 			outputsMutex.Unlock()
 			return nil
 		})
@@ -193,7 +210,7 @@ func (r *Registry) GetNoCacheOutputHash(ctx context.Context, target *model.Targe
 
 	return &gen.TargetResult{
 		ChangeHash:              target.ChangeHash,
-		OutputHash:              hashing.HashStrings(digests),
+		OutputHash:              hashOutputIdentities(identities),
 		ExecutionDurationMillis: target.ExecutionTime.Milliseconds(),
 	}, nil
 }
